@@ -112,6 +112,12 @@ CHECKS = {
     design_ref="DESIGN.md §5 C05",
     note="Trusted: TLC, the injectors' expectations (stated independently of the lints), harness projection. Additional diagnostics are allowed.",
     technique="TLA+ violation injectors with by-construction expectations (Gen_Conform) + replay into the real pipeline + TLC trace validation of kind and location"),
+ "C06": dict(
+    category="exploration",
+    text="Exploration of a structured, bounded input model, judged by Trace_Robust (the only accepted run is start -> diagnostics -> end; panic, watchdog timeout, crash, non-zero exit are events no action matches): all strings over a 26-symbol lexer alphabet (quotes, backslash, u, digits, '#', '.', ':', parentheses, '-', ',', blank, tab, CR, LF, NUL, 2-/3-/4-byte code points, '@', '+') up to length 3|4, exhaustive from Gen_Strings; boundary-grid programs of Gen_Overflow (28 shapes of folding, immediates, sp arithmetic, offsets, data, CSR); every include graph over three files incl. self loops, cycles and missing files (Gen_IncGraph), also with a reader that never reports cycles; Gen_Values / Gen_Flow simulations; token- and line-level mutations and truncations of corpus programs; scaled programs for the sweep bound 2N+3 (rva_verif counters); the rva binary in 10 output modes (debug; release in the thorough tier).",
+    design_ref="DESIGN.md §5 C06",
+    note="Crash-freedom over arbitrary Unicode is a fuzzing question; this check decides it only for the input model above (stated in the evidence). Debug profile with overflow checks for the library entry point. Trusted: TLC generators, harness watchdog (10 s), driver.",
+    technique="TLC-enumerated adversarial input model (strings, boundary programs, include graphs) replayed under a watchdog + TLA+ totality trace specification (Trace_Robust) + sweep-counter hooks"),
 }
 PENDING = "check not built yet in this round (planned, see DESIGN.md §5); not claimed until its check is green on the unchanged tree"
 m = {
